@@ -2,13 +2,14 @@
 
 Proof: lean/IstioModel/C17/Theorems.lean (the only counted module) - sort_canonical (every Go sort routine returns the same
 list for every permutation of an input whose distinct members are comparable), cmp_total_<name> for every modelled comparator
-(or a witness of a tie), fold_perm_<name> for every modelled fold over a Go map, Deterministic <pipeline> for five small models
-of real generation pipelines (Pipeline.lean).
-Tie: T-diff stream `cmp` - 20 op kinds running the real comparator / fold / pipeline functions (hooks zz_verif_c17.go, a list
+(or a witness of a tie), fold_perm_<name> for every modelled fold over a Go map, Deterministic <pipeline> for six small models
+of real generation pipelines (Pipeline.lean; corollaries of sort canonicity) and specifications of their folds.
+Tie: T-diff stream `cmp` - 21 op kinds running the real comparator / fold / pipeline functions (hooks zz_verif_c17.go, a list
 registry, an in-memory store, the memory registry of a FakeDiscoveryServer) vs the Lean models, line by line.
 Exploration (not proof): stream `perm` - the permutation harness on REAL generation: every mesh is built K times on a
 FakeDiscoveryServer with permuted insertion order, generated R times from rebuilt (also incrementally derived) PushContexts with
-rotating proxy order, in two separate processes; every resource of CDS/EDS/LDS/RDS/ECDS/NDS, delta CDS, removed names of delta
+rotating proxy order and once from the warm cache, in two separate processes per binary, with two binaries (default tags and
+-tags vtprotobuf = the marshaller of the shipped istiod); every resource of CDS/EDS/LDS/RDS/ECDS/NDS, delta CDS, removed names of delta
 pushes and route cache keys is hashed, and so is the control plane's own state per build; Go's comparison and the Lean
 `allEqualB` judge every observation line (stream `mon`); differences are confirmed across both processes.
 """
@@ -59,29 +60,40 @@ def oracle_cmp(ctx, stream, case_lines, rep):
 
 
 # ---------------------------------------------------------------------------------------------- perm
-def observe_twice(ctx, ops, tag, env_extra=None):
-    """Run `observe` on the same ops in two separate harness processes (in parallel)."""
-    outs = [os.path.join(ctx.work, "perm.%s.obs%d" % (tag, i)) for i in (0, 1)]
-    env = verif.go_env()
-    env["VERIF_SEED"] = str(ctx.seed)
-    env["VERIF_TIER"] = ctx.tier
-    if env_extra:
-        env.update(env_extra)
-    procs = []
-    for o in outs:
+def start_observers(ctx, ops, tag, env_extra=None, binary=None, procs=(0, 1)):
+    """Start `observe` on the same ops in two separate harness processes (in parallel); process i runs with C17_PROC=i,
+    which is mixed into the insertion orders of the builds k>0 (build 0 is the reference order in every process)."""
+    outs = [os.path.join(ctx.work, "perm.%s.obs%d" % (tag, i)) for i in procs]
+    running = []
+    for i, o in zip(procs, outs):
+        env = verif.go_env()
+        env["VERIF_SEED"] = str(ctx.seed)
+        env["VERIF_TIER"] = ctx.tier
+        env["C17_PROC"] = str(i)
+        if env_extra:
+            env.update(env_extra)
         if os.path.exists(o):
             os.remove(o)
-        procs.append(subprocess.Popen([ctx.bin_path, "observe", ops, o], cwd=ctx.work, env=env,
-                                      stdout=subprocess.PIPE, stderr=subprocess.STDOUT))
+        running.append(subprocess.Popen([binary or ctx.c17_bins["std"], "observe", ops, o], cwd=ctx.work, env=env,
+                                        stdout=subprocess.PIPE, stderr=subprocess.STDOUT))
+    return outs, running
+
+
+def wait_observers(running):
     logs = []
-    for p in procs:
+    for p in running:
         try:
             out, _ = p.communicate(timeout=3000)
         except subprocess.TimeoutExpired:
             p.kill()
             out, _ = p.communicate()
         logs.append((p.returncode, (out or b"").decode("utf-8", "replace")[-3000:]))
-    return outs, logs
+    return logs
+
+
+def observe_twice(ctx, ops, tag, env_extra=None, binary=None, procs=(0, 1)):
+    outs, running = start_observers(ctx, ops, tag, env_extra, binary, procs)
+    return outs, wait_observers(running)
 
 
 def split_cases(lines):
@@ -111,8 +123,12 @@ def merge_observations(ctx, a_path, b_path, mon_ops):
         ka = {l.split()[1]: l.split()[2:] for l in ca if l.startswith("obs")}
         kb = {l.split()[1]: l.split()[2:] for l in cb if l.startswith("obs")}
         skip = [l for l in ca + cb if l.startswith("skip")]
+        panic = [l for l in ca + cb if l.startswith("panic")]
         nobs = 0
-        if skip or not ka:
+        if panic:
+            # a panic inside the generators or the harness is never a skip: it is judged (and breaks the tie)
+            out.append(panic[0])
+        elif skip or not ka:
             out.append(skip[0] if skip else "skip no-observation")
         elif sorted(ka) != sorted(kb):
             out.append("obs harness:processes-observed-different-keys A B")
@@ -150,13 +166,28 @@ def classify(key):
     return ("perm:content:%s" % typ, "the CONTENT of the %s resources generated for one proxy from one state differs between runs" % typ)
 
 
-def judge_perm(ctx, tag, ops_path, source):
-    """observe (2 processes) -> merge -> both monitors -> classify. Returns number of cases."""
+def judge_perm(ctx, tag, ops_path, source, vt_ops=None):
+    """observe -> merge -> both monitors -> classify, once per binary: two processes of the harness built with the
+    default tags on `ops_path` and (at the same time) two processes of the harness built with the production
+    marshaller (-tags vtprotobuf) on `vt_ops`. Digests are compared within one binary only. Returns number of cases."""
     t0 = time.time()
-    outs, logs = observe_twice(ctx, ops_path, tag)
+    outs, running = start_observers(ctx, ops_path, tag)
+    vt_outs, vt_running = (None, [])
+    if vt_ops and ctx.c17_bins.get("vt"):
+        vt_outs, vt_running = start_observers(ctx, vt_ops, tag + "-vt", binary=ctx.c17_bins["vt"], procs=(2, 3))
+    logs = wait_observers(running)
+    vt_logs = wait_observers(vt_running)
+    nc = judge_pair(ctx, tag, outs, logs, source, "std", t0)
+    if vt_outs:
+        nc += judge_pair(ctx, tag + "-vt", vt_outs, vt_logs, source + " (binary built with -tags vtprotobuf)", "vt", t0)
+    return nc
+
+
+def judge_pair(ctx, tag, outs, logs, source, which, t0):
+    binary = ctx.c17_bins[which]
     for rc, log in logs:
         if rc != 0:
-            ctx.tie_broken("perm-observe", "the permutation harness stopped (rc=%s):\n%s" % (rc, log))
+            ctx.tie_broken("perm-observe", "the permutation harness (%s binary) stopped (rc=%s):\n%s" % (which, rc, log))
             return 0
     mon_ops = os.path.join(ctx.work, "mon.%s.ops" % tag)
     info = merge_observations(ctx, outs[0], outs[1], mon_ops)
@@ -178,17 +209,29 @@ def judge_perm(ctx, tag, ops_path, source):
     skipped = 0
     cur_case = None
     bad = {}  # case line -> [keys]
+    panics = []
     for l, v in zip(lines, verdicts):
         if l.startswith("case"):
             cur_case = l
+        elif v == "panic":
+            ctx.count("perm.panics")
+            panics.append((cur_case, l))
         elif v == "skip":
             skipped += 1
             ctx.count("perm.unsettled")
         elif v.startswith("bad"):
             bad.setdefault(cur_case, []).append(v.split()[1] if len(v.split()) > 1 else "?")
+    if panics:
+        case_line, l = panics[0]
+        case_ops = " ".join(t for t in case_line.split() if not t.startswith(("objs=", "res=")))
+        ctx.tie_broken("perm-panic", "%d mesh(es) ended in a panic inside the generators or the harness (%s binary); nothing can be concluded "
+                       "for them and a crash that depends on the run is itself a difference. First: `%s`: %s"
+                       % (len(panics), which, case_ops, verif_dec(l)), {"stream": "perm", "ops": [case_ops], "binary": which})
     for i in info:
-        ctx.count("perm.meshes")
-        ctx.count("perm.runs_compared", i["runs"])
+        ctx.count("perm.meshes" if which == "std" else "perm.vt.meshes")
+        ctx.count("perm.runs_compared" if which == "std" else "perm.vt.runs_compared", i["runs"])
+        if which != "std":
+            continue
         for tok in i["head"].split():
             if tok.startswith("res="):
                 ctx.count("perm.resources_per_generation", int(tok[4:]))
@@ -211,6 +254,7 @@ def judge_perm(ctx, tag, ops_path, source):
     if nc and skipped * 5 > nc:
         ctx.tie_broken("perm-unsettled", "%d of %d meshes did not reach the same control-plane state in all builds; nothing was compared for them" % (skipped, nc))
     reported = set()
+    # explain + minimise are limited to the first two classes of a whole RUN: a tree that fails everywhere must still finish
     unconfirmed = {}  # fingerprint -> number of cases that did not reproduce
     sdiff = {i["head"]: i["statediff"] for i in info}
     for case_line, keys in bad.items():
@@ -225,15 +269,15 @@ def judge_perm(ctx, tag, ops_path, source):
             classes.setdefault(fp, (what, []))[1].append(k)
         for fp, (what, ks) in classes.items():
             ctx.count("perm.bad." + fp)
-            if fp in reported:
-                continue
+            if fp in reported or any(v["fingerprint"] == fp for v in ctx.violations):
+                continue  # one report (with confirmation) per class and run
             reported.add(fp)
             case_ops = " ".join(t for t in case_line.split() if not t.startswith(("objs=", "res=")))
-            rep = {"stream": "perm", "ops": [case_ops], "differing_observations": ks, "source": source}
+            rep = {"stream": "perm", "ops": [case_ops], "differing_observations": ks, "source": source, "binary": which}
             if sdiff.get(case_line):
                 rep["state_difference"] = sdiff[case_line]
             if fp != KNOWN_ORDER_FP:
-                if not confirm(ctx, case_ops, ks):
+                if not confirm(ctx, case_ops, ks, binary):
                     # Did not reproduce in 2 re-runs (two processes each, compared across both) that let the control plane
                     # rest before generating. It was observed, so it is never dropped: it breaks the tie.
                     unconfirmed[fp] = unconfirmed.get(fp, 0) + 1
@@ -246,31 +290,44 @@ def judge_perm(ctx, tag, ops_path, source):
                                    "a difference (%s) was observed on %d meshes but did not reproduce when each mesh was re-run with a quiet "
                                    "period; either a rare non-determinism or a state the harness compared while it was still moving" % (fp, unconfirmed[fp]), rep)
                     continue
-                rep["explain"] = explain(ctx, case_ops)
-                rep["minimised"] = minimise(ctx, case_ops, ks)
+                if getattr(ctx, "c17_detailed", 0) < 2:
+                    ctx.c17_detailed = getattr(ctx, "c17_detailed", 0) + 1
+                    rep["explain"] = explain(ctx, case_ops, binary)
+                    # a witness mesh is minimal by construction
+                    rep["minimised"] = case_ops if " mesh=" in case_ops else minimise(ctx, case_ops, ks, binary)
+                else:
+                    rep["explain"] = "not computed (explain + minimise are limited to the first two classes of a run): ./replay this file"
             ctx.violation(fp, what, rep, True)
     for fp, n in unconfirmed.items():
         if fp not in reported or n < 2:
             ctx.tie_broken("perm-unconfirmed:" + fp,
                            "a difference (%s) was observed on %d mesh(es) but did not reproduce when re-run with a quiet period" % (fp, n))
-    ctx.log("perm (%s): %d meshes, %d unsettled, %d with differing observations (%.0fs)" % (source, nc, skipped, len(bad), time.time() - t0))
+    ctx.log("perm (%s): %d meshes, %d unsettled, %d panics, %d with differing observations (%.0fs)" % (source, nc, skipped, len(panics), len(bad), time.time() - t0))
     return nc
 
 
-def confirm(ctx, case_ops, keys):
+def verif_dec(line):
+    """`panic <encoded site>` -> readable text (the wire encoding is %XX)."""
+    from urllib.parse import unquote
+    return unquote(" ".join(line.split()[1:]))[:1500]
+
+
+def confirm(ctx, case_ops, keys, binary=None):
     """Re-run one case (2 attempts, TWO processes each) with a quiet period after the state fingerprints agree;
     the difference is confirmed if any of `keys` differs again within or ACROSS the two processes."""
     p = os.path.join(ctx.work, "perm.confirm.ops")
     with open(p, "w") as f:
         f.write(case_ops + "\n")
     for attempt in range(2):
-        outs, logs = observe_twice(ctx, p, "confirm", env_extra={"C17_QUIET_MS": "400"})
+        outs, logs = observe_twice(ctx, p, "confirm", env_extra={"C17_QUIET_MS": "400"}, binary=binary)
         if any(rc != 0 for rc, _ in logs) or not all(os.path.exists(o) for o in outs):
             return True  # cannot judge: report
         digests = {}
         for o in outs:
             for l in ctx.read_lines(o):
                 t = l.split()
+                if t and t[0] == "panic":
+                    return True
                 if t and t[0] == "skip":
                     digests.setdefault("skip", set()).add(l)
                 if t and t[0] == "obs":
@@ -280,43 +337,93 @@ def confirm(ctx, case_ops, keys):
     return False
 
 
-def explain(ctx, case_ops):
+def harness_with(ctx, binary, *args, timeout):
+    saved = ctx.bin_path
+    ctx.bin_path = binary or saved
+    try:
+        return ctx.harness(*args, timeout=timeout)
+    finally:
+        ctx.bin_path = saved
+
+
+def explain(ctx, case_ops, binary=None):
     p = os.path.join(ctx.work, "perm.explain.ops")
     with open(p, "w") as f:
         f.write(case_ops + "\n")
-    rc, out = ctx.harness("explain", p, timeout=600)
+    rc, out = harness_with(ctx, binary, "explain", p, timeout=300)
     return out[-6000:]
 
 
-def minimise(ctx, case_ops, keys):
+def minimise(ctx, case_ops, keys, binary=None):
     p = os.path.join(ctx.work, "perm.min.ops")
     with open(p, "w") as f:
         f.write(case_ops + "\n")
-    rc, out = ctx.harness("minimise", p, ",".join(keys), "3", timeout=420)
+    rc, out = harness_with(ctx, binary, "minimise", p, ",".join(keys), "2", timeout=180)
     last = [l for l in out.split("\n") if l.startswith("case")]
     return last[-1] if last else None
 
 
+def build_binaries(ctx):
+    """The harness is built twice: with the default tags, and with `vtprotobuf` - the tag istiod is shipped with
+    (Makefile.core.mk STANDARD_TAGS=vtprotobuf,disable_pgv) that switches protoconv.marshal to the generated
+    MarshalVTStrict methods. `disable_pgv` only removes the generated Validate methods; the harness cannot be built with
+    it because pilot/test/xdstest/validate.go (imported by the FakeDiscoveryServer) calls them."""
+    if not ctx.go_build():
+        return False
+    std = ctx.bin_path
+    ctx.c17_bins = {"std": std}
+    ok = ctx.go_build(out_name="c17vt", tags="verif vtprotobuf")
+    vt = ctx.bin_path
+    ctx.bin_path = std
+    ctx.bins[ctx.lc] = std
+    if not ok:
+        return False
+    marsh = {}
+    for which, b in (("std", std), ("vt", vt)):
+        rc, out = harness_with(ctx, b, "vtcheck", timeout=60)
+        line = out.strip().split("\n")[-1] if rc == 0 else ""
+        marsh[which] = dict(t.split("=", 1) for t in line.split()[1:] if "=" in t) if line.startswith("vt ") else {"error": out[-300:]}
+    ctx.extra["marshaller"] = {
+        "default_tags_binary": marsh["std"], "vtprotobuf_binary": marsh["vt"],
+        "note": "implemented=true: the go-control-plane messages have MarshalVTStrict in this binary (build tag vtprotobuf, as in the shipped "
+                "istiod); strict_encodings_of_one_message: distinct byte strings MarshalVTStrict gave for ONE message with map fields in 64 calls "
+                "(it is not deterministic); messagetoany_encodings_of_one_message: the same for protoconv.MessageToAny - must be 1"}
+    if marsh["vt"].get("implemented") != "true" or marsh["std"].get("implemented") != "false" or marsh["vt"].get("enabled") != "true":
+        ctx.tie_broken("vtprotobuf-binary", "the two harness binaries are not on the build-tag sets they are meant to exercise: %s" % marsh)
+        return False
+    for which in ("std", "vt"):
+        if marsh[which].get("messagetoany_encodings_of_one_message") != "1":
+            ctx.violation("marshal:messagetoany-not-deterministic",
+                          "protoconv.MessageToAny serializes ONE message (a core.Metadata with map fields of four entries) to different bytes "
+                          "from one call to the next in the binary built with %s (vtprotobuf's MarshalVTStrict writes map fields in Go map "
+                          "iteration order)" % ("-tags vtprotobuf, the tag set of the shipped istiod" if which == "vt" else "the default tags"),
+                          {"stream": "vtcheck", "ops": ["vtcheck"], "binary": which, "vtcheck": marsh[which]}, True)
+    ctx.c17_bins["vt"] = vt
+    return True
+
+
 def run(ctx):
-    ctx.rule = ("cmp: 20 op kinds - random lists of services / configs / DestinationRules / workloads (few distinct timestamps, names, namespaces; runs "
+    ctx.rule = ("cmp: 21 op kinds - random lists of services / configs / DestinationRules / workloads (few distinct timestamps, names, namespaces; runs "
                 "of objects sharing a prefix of the key), shard keys, string sets, endpoint shards with localities, watched type sets, HTTPMatchRequest "
                 "maps, byNamespace maps, endpoint-slice sets, service listings for the service index (several claimants per key, some Kubernetes), "
-                "alias sets, services sharing addresses on a sidecar route, EnvoyFilter and TrafficExtension listings (equal priorities / ages, time "
-                "representations), target-port lists, TCP services with VIPs; "
+                "alias sets, services sharing addresses on a sidecar route, EnvoyFilter (also more than 12 at once) and TrafficExtension listings (equal priorities / ages, time "
+                "representations), DestinationRule listings for the merge (equal ages, overlapping subsets, missing policies), target-port lists, TCP services with VIPs; "
                 "perm: seeded meshes of 20-150 objects (Kubernetes services/pods/endpoint slices, Service-attached HTTPRoutes, multi-host and "
                 "multi-address ServiceEntries with shared hosts, WorkloadEntries, ExternalName and overlapping-selector services, VirtualServices incl. "
-                "gateway-bound, wildcard, root+delegate, DestinationRules, Sidecars, Gateways, PeerAuthentication with port-level maps, "
+                "gateway-bound, wildcard, root+delegate, DestinationRules, Sidecars (wildcard, exact-host-only and HTTP_PROXY egress listeners), Gateways, PeerAuthentication with port-level maps, "
                 "AuthorizationPolicy, RequestAuthentication, EnvoyFilter, Telemetry, WasmPlugin, ProxyConfig, TrafficExtension; random MeshConfig "
-                "variants; 1-2 distinct creation timestamps in 3 of 4 meshes; every sixth mesh in ambient mode with a waypoint, every sixth with "
-                "PILOT_SIDECAR_PICK_BEST_SERVICE_NAMESPACE=false) + 15 hand-written witness meshes; distinct = hash of (ops, outputs); "
+                "variants incl. ProxyHttpPort; one mesh in six on two networks with gateways; 1-2 distinct creation timestamps in 3 of 4 meshes; every sixth mesh "
+                "in ambient mode with a waypoint, every twelfth with PILOT_SIDECAR_PICK_BEST_SERVICE_NAMESPACE=false, every twelfth with "
+                "PILOT_CONVERT_SIDECAR_SCOPE_CONCURRENCY=4) + 18 hand-written witness meshes; the first third of the meshes and the witnesses also with the "
+                "binary built with -tags vtprotobuf; distinct = hash of (ops, outputs); "
                 "non-trivial = at least one op / observation")
     ctx.assumptions = [
         "a Go sort routine called with a strict weak order returns an ordered permutation of its input (IsSort); nothing else about it is assumed",
         "creation timestamps have second resolution and are modelled as natural numbers; Go's `!=` on time.Time also sees the representation (modelled as `zone` in P4 only)",
-        "deterministic protobuf marshalling (protoconv.MessageToAny, proto.MarshalOptions{Deterministic:true}) is deterministic for equal messages within one binary",
+        "proto.MarshalOptions{Deterministic:true} is deterministic for equal messages within one binary (checked on one message per run by `c17 vtcheck`, in both binaries; not proved)",
         "strings.Compare (UTF-8 bytes) and Lean's String order (code points) agree",
         "nothing is proved about separate processes or instances: the across-process clause is explored by running the harness in two processes",
-        "byte-level determinism of the generators at large is EXPLORED by the permutation harness, not proved: the theorems cover the comparators, the modelled folds and five pipeline models",
+        "byte-level determinism of the generators at large is EXPLORED by the permutation harness, not proved: the theorems cover the comparators, the modelled folds and six pipeline models",
     ]
     ctx.trusted.append("verif-tagged accessors zz_verif_c17.go in pilot/pkg/model, pilot/pkg/xds, pilot/pkg/serviceregistry/kube/controller, pilot/pkg/config/kube/gateway")
     ctx.trusted.append("sha256 digests, name sorting and the state fingerprint of the permutation harness are unverified Go; the Lean monitor only compares the digests")
@@ -328,7 +435,7 @@ def run(ctx):
         ctx.tie_broken("lean-unfixed-record", out)
     if not ctx.build_drv():
         return
-    if not ctx.go_build():
+    if not build_binaries(ctx):
         return
     # ---- T-diff on the comparators and folds
     ctx.diff_stream("cmp", ctx.n(3000, 60000), oracle=oracle_cmp)
@@ -347,8 +454,8 @@ def run(ctx):
     cdir = os.path.join(verif.HARNESS, "corpus", ctx.pid)
     for f in sorted(os.listdir(cdir)) if os.path.isdir(cdir) else []:
         if f.startswith("perm.") and f.endswith(".ops"):
-            judge_perm(ctx, "corpus-" + f[5:-4], os.path.join(cdir, f), "corpus:" + f)
-    n = ctx.n(150, 1500)
+            judge_perm(ctx, "corpus-" + f[5:-4], os.path.join(cdir, f), "corpus:" + f, vt_ops=os.path.join(cdir, f))
+    n = ctx.n(120, 1500)
     ops = os.path.join(ctx.work, "perm.gen.ops")
     if os.path.exists(ops):
         os.remove(ops)
@@ -356,7 +463,17 @@ def run(ctx):
     if rc != 0 or not os.path.exists(ops):
         ctx.tie_broken("harness-gen:perm", out)
         return
-    judge_perm(ctx, "gen", ops, "generated")
+    # the production-marshaller binary runs on the first third of the generated meshes (at the same time)
+    vt_ops = os.path.join(ctx.work, "perm.vt.ops")
+    with open(vt_ops, "w") as f:
+        f.write("\n".join(ctx.read_lines(ops)[:max(40, n // 3)]) + "\n")
+    judge_perm(ctx, "gen", ops, "generated", vt_ops=vt_ops)
+    ctx.extra["level_scope"] = "partial"
+    ctx.extra["level_qualification"] = (
+        "PARTIAL. The field `level` of this file is the framework's name for the technique (machine-checked Lean theorems); it does "
+        "NOT say that the property as worded is proved. Proved: the obligations listed under coverage (comparators, map folds, six "
+        "pipeline models with determinism and fold specifications). Tied by differential testing: stream cmp. EXPLORED ONLY: "
+        "byte-identical generation by the real generators (stream perm / counters perm.*), see proved_vs_explored and the MANIFEST.")
     ctx.extra["proved_vs_explored"] = {
         "proved": "coverage.obligations / coverage.theorems: canonical ordering for every sort routine, totality (or tie witness) of each comparator, "
                   "order-independence of each modelled map fold, soundness+completeness of the monitor",
@@ -374,13 +491,15 @@ def replay(ctx, path):
     if not ops:
         ctx.log("replay file has no ops; re-running the full check")
         return run(ctx)
-    if not (ctx.build_drv() and ctx.go_build()):
+    if not (ctx.build_drv() and build_binaries(ctx)):
         return
+    if stream == "vtcheck":
+        return  # build_binaries has re-run it (and recorded the violation again if it still holds)
     if stream in ("perm", "mon"):
         p = os.path.join(ctx.work, "replay.perm.ops")
         with open(p, "w") as f:
             f.write("\n".join(ops) + "\n")
-        judge_perm(ctx, "replay", p, "replay")
+        judge_perm(ctx, "replay", p, "replay", vt_ops=p)
         return
     p = os.path.join(ctx.work, "replay.ops")
     with open(p, "w") as f:
@@ -403,23 +522,34 @@ MANIFEST = {
                    "sortByPriority, `<=` used as less, watched types outside PushOrder), and sort_canonical: EVERY function returning an ordered "
                    "permutation (any Go sort routine) gives the same list for every permutation of an input with pairwise distinct keys; clause "
                    "'regardless of the order in which objects were created or listed, of map iteration order' - for the modelled map folds "
-                   "(fold_perm_*) and for five small models of real generation pipelines (service index incl. the winner rule, shared-address "
-                   "virtual hosts, Shards -> ClusterLoadAssignment, EnvoyFilter order, TrafficExtension order): Deterministic <pipeline> over every "
+                   "(fold_perm_*) and for six small models of real generation pipelines (service index incl. the winner rule, shared-address "
+                   "virtual hosts, Shards -> ClusterLoadAssignment, EnvoyFilter order, TrafficExtension order, DestinationRule merge): Deterministic <pipeline> over every "
                    "permutation of the inputs; each model is tied to the real functions by an op of the differential stream `cmp` on every run. "
+                   "Each Deterministic <pipeline> theorem is a corollary of sort canonicity (it never looks at the fold after the sort); what the folds "
+                   "compute is stated separately: serviceIndex_winner (P1), vipOwners_spec / vipOwners_owner_least (P2: the least hostname keeps a shared "
+                   "address), mergedFor_src / _policy / _subset_owner (P6: DestinationRule merge order, first traffic policy and first subset definition win). "
                    "EXPLORED, NOT PROVED: byte-identical generation by the real generators, and 'which control-plane instance or process performs "
                    "it' - a permutation harness builds each mesh K times with permuted insertion order (partly before, partly after start), "
-                   "regenerates R times from rebuilt (also incrementally derived) PushContexts with rotating proxy order in TWO processes, hashes "
+                   "regenerates R times from rebuilt (also incrementally derived) PushContexts with rotating proxy order plus once per build from the "
+                   "warm XDS cache, in TWO processes per binary and with TWO binaries (default tags; -tags vtprotobuf, the marshalling path of the shipped "
+                   "istiod - digests are compared within one binary only), hashes "
                    "every CDS/EDS/LDS/RDS/ECDS/NDS resource, delta CDS, removed names of delta pushes and route cache keys for sidecars, a router "
                    "and a waypoint, and also judges the control plane's own state per build (state-order). The monitor is an equality check over "
                    "digests computed by unverified Go."),
-    "level_note": ("PARTIAL. Proved = comparator/fold/pipeline-model logic (coverage.obligations, counted module Theorems.lean only); tied = stream cmp (20 op "
-                   "kinds on the real functions); explored = real generation on ~165 (quick) / ~1500 (thorough, verified in 29 min) meshes (coverage.streams.perm, counters "
-                   "perm.*) - no difference observed is not a proof. Fourteen genuine defects were found by the harness and repaired in /repo (fix: "
-                   "commits, notes/C17.md; each has a witness mesh in harness/corpus/C17), among them one of STATE (ambient service selection depended on "
-                   "creation order) and one of HISTORY (a gateway's scope depended on which proxies were served before). Known deviation, deliberate in "
+    "level_note": ("PARTIAL (evidence: coverage.level_scope / level_qualification; the evidence field `level` names the technique, not the reach). Proved = "
+                   "comparator/fold/pipeline-model logic (coverage.obligations, counted module Theorems.lean only); tied = stream cmp (21 op "
+                   "kinds on the real functions); explored = real generation on ~140 (quick) / ~1500 (thorough) meshes, a third of them also with the "
+                   "vtprotobuf binary (coverage.streams.perm, counters perm.*) - no difference observed is not a proof. Sixteen genuine defects were found "
+                   "by the harness and repaired in /repo (fix: commits, notes/C17.md; each has a witness mesh in harness/corpus/C17 or a direct self-test), "
+                   "among them one of STATE (ambient service selection depended on creation order), one of HISTORY (a gateway's scope depended on which "
+                   "proxies were served before) and one of the MARSHALLER (vtprotobuf's MarshalVTStrict writes map fields in map iteration order: in the "
+                   "shipped build every resource with a map changed its bytes from push to push). The harness is built with -tags 'verif vtprotobuf'; "
+                   "the full production set 'vtprotobuf disable_pgv' does not build (pilot/test/xdstest/validate.go, imported by the FakeDiscoveryServer, "
+                   "calls the Validate methods disable_pgv removes) - disable_pgv removes validation code only. Known deviation, deliberate in "
                    "the code: the order of resources in a response of the EDS/RDS/ECDS xDS generators follows Go map iteration over the requested name "
                    "set (fingerprint perm:response-order:requested-names, only `.setorder` observations; RDS/ECDS order for a fixed request order IS "
-                   "judged). Not covered: ztunnel (WDS/WAUTH), SDS, proxyless, multi-cluster, mesh networks, dual stack, Gateway API Gateways; Kubernetes "
+                   "judged). Not covered: ztunnel (WDS/WAUTH), SDS, proxyless, multi-cluster, dual stack, Gateway API Gateways, the gRPC envelope (DiscoveryResponse) bytes; "
+                   "mesh networks only as one two-network shape; Kubernetes "
                    "Nodes are created before Pods (Node-after-Pod is C15's known finding order:locality-built-before-node-change). Trusted: Lean kernel + "
                    "{propext, Classical.choice, Quot.sound}; hand-written models tied by differential testing; hooks zz_verif_c17.go (model, xds, kube "
                    "controller, kube gateway); deterministic protobuf marshalling and sha256 digests in Go assumed."),
